@@ -92,6 +92,11 @@ Proof.
   reflexivity.
 Qed.
 
+Lemma agree_parse_ymd_z n tz dst b b' off : agree n b b' -> 0 <= off -> off + 10 <= n -> parse_ymd_z tz dst b off = parse_ymd_z tz dst b' off.
+Proof.
+  intros H H0 H1. unfold parse_ymd_z. rewrite (agree_parse_ymd n (tz + DST_SAVE) b b' off H H0 H1), (agree_parse_ymd n tz b b' off H H0 H1). reflexivity.
+Qed.
+
 (* ---- layout facts used below, as booleans checked for all 17 regenerated descriptors *)
 Definition nonneg_ok (d : desc) : bool :=
   (0 <=? d_off_ts d) && (0 <=? d_off_temp d) && (0 <=? d_off_seq d) && (0 <=? d_off_hdr_return_mode d) && (0 <=? d_off_hdr_lidar_type d) &&
@@ -235,7 +240,7 @@ Proof.
     - cbn [fst snd Z.to_nat skipn].
       split; [|intros _; split; reflexivity].
       destruct (uses_utc d variant);
-        [rewrite (agree_parse_utc (d_msop_len d) b b' (d_off_ts d) Hag) by lia | rewrite (agree_parse_ymd (d_msop_len d) (c_tz c) b b' (d_off_ts d) Hag) by lia]; reflexivity.
+        [rewrite (agree_parse_utc (d_msop_len d) b b' (d_off_ts d) Hag) by lia | rewrite (agree_parse_ymd_z (d_msop_len d) (c_tz c) (c_dst c) b b' (d_off_ts d) Hag) by lia]; reflexivity.
     - cbn [fst snd]. split; [reflexivity|]. intros [Hc|Hc]; [discriminate|]. rewrite Hc. split; reflexivity. }
   destruct (pkt_time d c variant b 0 h1 h2) as [pkt_ts bo]. destruct (pkt_time d c variant b' 0 h1 h2) as [pkt_ts' bo'].
   cbn [fst snd] in Hp. destruct Hp as [<- Hbytes].
@@ -339,7 +344,7 @@ Section Mems.
     { unfold pkt_time. cbv zeta. destruct (c_lidar_clock c) eqn:El.
       - cbn [fst snd]. split; [|intros _; split; reflexivity].
         destruct (uses_utc d 0);
-          [rewrite (agree_parse_utc sub_size _ _ (d_off_ts d) Hs) by lia | rewrite (agree_parse_ymd sub_size (c_tz c) _ _ (d_off_ts d) Hs) by lia]; reflexivity.
+          [rewrite (agree_parse_utc sub_size _ _ (d_off_ts d) Hs) by lia | rewrite (agree_parse_ymd_z sub_size (c_tz c) (c_dst c) _ _ (d_off_ts d) Hs) by lia]; reflexivity.
       - cbn [fst snd]. split; [reflexivity|]. intros [Hc|Hc]; [discriminate|]. rewrite Hc. split; reflexivity. }
     destruct (pkt_time d c 0 b base h1 h2) as [pkt_ts bo]. destruct (pkt_time d c 0 b' base h1 h2) as [pkt_ts' bo'].
     cbn [fst snd] in Hp. destruct Hp as [<- Hbytes].
